@@ -46,17 +46,17 @@ Definition table_wf : bool :=
   nodup_nat flags && forallb (fun c => mem (cfrom c) flags && mem (cto c) flags && negb (Nat.eqb (cfrom c) (cto c))) converters.
 
 Lemma table_wf_ok : table_wf = true.
-Proof. vm_compute. reflexivity. Qed.
+Proof. vm_cast_no_check (eq_refl true). Qed.
 
 (* --- boolean facts, by computation --------------------------------------------------------------------------- *)
 Lemma valid_all : forall_known_target flags known_sets (valid_at fuel converters) = true.
-Proof. vm_compute. reflexivity. Qed.
+Proof. vm_cast_no_check (eq_refl true). Qed.
 
 Lemma complete_all : forall_known_target flags known_sets (complete_at fuel converters) = true.
-Proof. vm_compute. reflexivity. Qed.
+Proof. vm_cast_no_check (eq_refl true). Qed.
 
 Lemma shortest_all : forall_known_target flags known_sets (shortest_at fuel converters) = true.
-Proof. vm_compute. reflexivity. Qed.
+Proof. vm_cast_no_check (eq_refl true). Qed.
 
 (* the reachability sets are closed under the conversions (the fuel of `closure` was sufficient) and the breadth-first
    distance is defined exactly on the reachable targets *)
@@ -66,7 +66,7 @@ Definition reach_ok_at (ktos : list nat) (t : nat) : bool :=
                           (match bfs_dist fuel converters ktos t with Some _ => true | None => false end)).
 
 Lemma reach_ok_all : forall_known_target flags known_sets reach_ok_at = true.
-Proof. vm_compute. reflexivity. Qed.
+Proof. vm_cast_no_check (eq_refl true). Qed.
 
 (* --- readable statements -------------------------------------------------------------------------------------- *)
 (* (i) one known operator *)
